@@ -33,7 +33,7 @@ func parseCase(line string, sc *scratch) (string, string) {
 		h := strings.Fields(secs[2])
 		cz, _ := strconv.ParseInt(h[0], 10, 64)
 		real, _ := strconv.ParseInt(h[1], 10, 64)
-		if cz != real {
+		if cz != real && cz != 0 {
 			zc.czsize = cz
 		}
 		zc.pre = common.Atoi(h[2], 0)
